@@ -7,14 +7,18 @@ use std::task::{Context, Poll, Wake, Waker};
 
 /// Shared log of wake-ups (waker ids in the order they were woken).
 #[derive(Clone, Default)]
-pub struct WakeLog(pub Arc<Mutex<Vec<u64>>>);
+pub struct WakeLog(pub Arc<Mutex<Vec<u64>>>, Arc<Mutex<std::collections::HashMap<u64, Waker>>>);
 
 impl WakeLog {
     pub fn take(&self) -> Vec<u64> {
         std::mem::take(&mut *self.0.lock().unwrap())
     }
+    /// The waker with this id. Asking twice for the same id gives clones of ONE waker (as an
+    /// executor re-polling a task does): `Waker::will_wake` is true between them, so code paths
+    /// that skip work for "the same waker" are exercised.
     pub fn waker(&self, id: u64) -> Waker {
-        Waker::from(Arc::new(IdWaker { id, log: self.0.clone() }))
+        let mut m = self.1.lock().unwrap();
+        m.entry(id).or_insert_with(|| Waker::from(Arc::new(IdWaker { id, log: self.0.clone() }))).clone()
     }
 }
 
